@@ -11,5 +11,18 @@ for g in $(ls /tmp/wt3 | grep -v prompt | grep -v agent); do for b in b1 b2 b3; 
     [ -z "$BENIGN_SINCE" ] && continue
     [ $VERIF_SEEDED_DIR/$id/meta.json -nt "$BENIGN_SINCE" ] && continue
   fi
-  /venv/bin/python -m harness.benigntool /tmp/wt3/$g /tmp/wt3/$g/out/$b $id 2>&1 | grep "^benign\|^   C"
+  case "$BENIGN_GROUPS$g" in
+    1exporters) cs=--checks=C10,C11,C12,C13 ;;
+    1importers) cs=--checks=C10,C11 ;;
+    1iterators) cs=--checks=C05,C06,C09,C12,C14,C17 ;;
+    1nodes) cs=--checks=C01,C02,C03,C04,C16,C17,C18,C19,C20 ;;
+    1render) cs=--checks=C09 ;;
+    1resolver) cs=--checks=C07,C08,C17 ;;
+    1search) cs=--checks=C14,C17 ;;
+    1symlink) cs=--checks=C19,C20,C01 ;;
+    1util) cs=--checks=C04,C05,C17,C18,C01 ;;
+    1walker) cs=--checks=C15,C17 ;;
+    *) cs= ;;
+  esac
+  /venv/bin/python -m harness.benigntool /tmp/wt3/$g /tmp/wt3/$g/out/$b $id $cs 2>&1 | grep "^benign\|^   C"
 done; done
